@@ -41,6 +41,9 @@ Definition fresh_ids (evs : list event) : Prop := NoDup (enq_ids evs).
 
 Inductive op :=
 | OEnq (it : item)            (* p.Enqueue(it) *)
+| OEnqHeld (it : item)        (* p.Enqueue(it) is called in its own goroutine and - if it got past the
+                                 stopped test - held inside (in it.Key(), i.e. with p.lock held) *)
+| OEnqGo (it : item)          (* the held Enqueue(it) is let go and completes *)
 | ODeq (k : Z)                (* p.Dequeue(k) *)
 | OAdv (t : Z)                (* the injected clock is set to t (never backwards) *)
 | OClose                      (* p.Close() is called (in its own goroutine); may be called any number of times *)
@@ -54,7 +57,7 @@ Inductive sstep := SOp (o : op) | SRace (t : Z) (o : op).
 (* what was observed when everything had come to rest after the step:
    callbacks started during the step (item id, injected-clock time), in order;
    where the loop goroutine is: 0 none, 1 held at Now(), 2 held at NewTimer(), 3 parked on its
-   timer, 4 inside a held callback; the timer's deadline (pos 3); how many of the Close calls made
+   timer, 4 inside a held callback, 5 waiting for p.lock (which a held Enqueue has); the timer's deadline (pos 3); how many of the Close calls made
    so far have returned *)
 Record obs := mkObs { o_execs : list (Z * Z); o_pos : Z; o_dl : Z; o_closed : Z }.
 
@@ -81,17 +84,31 @@ Definition close_step (h : hist) : option nat :=
 Definition before_close (h : hist) (j : nat) : bool :=
   match close_step h with Some c => (j <? c)%nat | None => true end.
 
-(* all Enqueue calls that were made before Close was called (later ones do nothing): (step, item) *)
+(* the step at which the Enqueue completed by [OEnqGo] at step j was called: the last OEnqHeld
+   before j *)
+Definition held_call (h : hist) (j : nat) : option nat :=
+  option_map fst (find (fun jso : nat * (sstep * obs) =>
+                          match op_of (fst (snd jso)) with OEnqHeld _ => true | _ => false end)
+                       (rev (firstn j (steps_ix h)))).
+
+(* all Enqueue calls that were made before Close was called (later ones do nothing), with the step
+   at which they took effect: (step, item).  A held Enqueue takes effect when it is let go,
+   provided it was CALLED before Close was. *)
 Definition enqs_of (h : hist) : list (nat * item) :=
   flat_map (fun jso : nat * (sstep * obs) =>
               match op_of (fst (snd jso)) with
               | OEnq it => if before_close h (fst jso) then [(fst jso, it)] else []
+              | OEnqGo it =>
+                  match held_call h (fst jso) with
+                  | Some jh => if before_close h jh then [(fst jso, it)] else []
+                  | None => []
+                  end
               | _ => []
               end)
            (steps_ix h).
 
 Definition removes (o : op) (k : Z) : bool :=
-  match o with ODeq k' => k' =? k | OEnq it => ikey it =? k | _ => false end.
+  match o with ODeq k' => k' =? k | OEnq it => ikey it =? k | OEnqGo it => ikey it =? k | _ => false end.
 
 (* the first step after step j (and before Close is called) that dequeues or replaces key k *)
 Definition removal_after (h : hist) (j : nat) (k : Z) : option (nat * sstep) :=
